@@ -5,7 +5,7 @@ use buffer_redux::BufReader;
 use byteorder::{BigEndian, ByteOrder};
 use nom::{
     branch::alt,
-    bytes::streaming::{tag, take, take_until, take_until1},
+    bytes::streaming::{tag, take, take_until},
     character::streaming::{digit1, line_ending, not_line_ending, space0},
     combinator::{complete, map, map_res, opt, success, value},
     multi::many0,
@@ -190,31 +190,30 @@ fn armor_header_line(i: &[u8]) -> IResult<&[u8], BlockType> {
 }
 
 /// Parses a single key value pair, for the header.
+///
+/// A header is one line: the key ends at the first `": "` of that line (or at a `':'` that ends
+/// the line, for an empty value). The line ending must have been seen, otherwise more input is
+/// asked for (callers that hold the complete input wrap this in `complete`).
 fn key_value_pair(i: &[u8]) -> IResult<&[u8], (&str, &str)> {
-    let (i, key) = map_res(
-        alt((
-            complete(take_until1(":\r\n")),
-            complete(take_until1(":\n")),
-            complete(take_until1(": ")),
-        )),
-        str::from_utf8,
-    )
-    .parse(i)?;
+    let (rest, line) = map_res(not_line_ending, str::from_utf8).parse(i)?;
+    let (rest, _) = line_ending(rest)?;
 
-    // consume the ":"
-    let (i, _) = tag(":")(i)?;
-    let (i, t) = alt((tag(" "), line_ending)).parse(i)?;
-
-    let (i, value) = if t == b" " {
-        let (i, value) = map_res(not_line_ending, str::from_utf8).parse(i)?;
-        let (i, _) = line_ending(i)?;
-        (i, value)
-    } else {
+    let (key, value) = if let Some((key, value)) = line.split_once(": ") {
+        (key, value)
+    } else if let Some(key) = line.strip_suffix(':') {
         // empty value
-        (i, "")
+        (key, "")
+    } else {
+        ("", "")
     };
+    if key.is_empty() {
+        return Err(nom::Err::Error(nom::error::Error::new(
+            i,
+            nom::error::ErrorKind::TakeUntil,
+        )));
+    }
 
-    Ok((i, (key, value)))
+    Ok((rest, (key, value)))
 }
 
 /// Parses a list of key value pairs.
